@@ -16,7 +16,9 @@
 (***************************************************************************)
 EXTENDS Naturals, Sequences, FiniteSets, TLC, Json
 
-CONSTANTS MECHS, UCLASSES, PCLASSES, WRONGS, TLSVERS, RETRY, ITERS, SALTS, SUFFIXES
+CONSTANTS MECHS, UCLASSES, PCLASSES, WRONGS, TLSVERS, RETRY, ITERS, SALTS, SUFFIXES,
+          VIAS,    \* "smtp": smtp.Client.Auth with an Auth object of the caller; "client": mail.Client dials (twice when retry)
+          ABORTS   \* how the server cuts the FIRST attempt of a retry short: "" (not), "t4" (4yz to the second response), "drop"
 
 Scram(m) == m \in {"SCRAM-SHA-1", "SCRAM-SHA-256", "SCRAM-SHA-1-PLUS", "SCRAM-SHA-256-PLUS"}
 Plus(m)  == m \in {"SCRAM-SHA-1-PLUS", "SCRAM-SHA-256-PLUS"}
@@ -64,8 +66,9 @@ Idx(S, x) == Cardinality({y \in S : y < x})      \* position of a string in a se
 Scenarios ==
   {[kind |-> "honest", mech |-> m, user |-> u, pass |-> p, wrong |-> w,
     tlsver |-> IF Plus(m) THEN v ELSE "", retry |-> r,
-    salt |-> Pick(SALTS, n), iter |-> Pick(ITERS, n + 1), suffix |-> Pick(SUFFIXES, n + 2)] :
-     m \in MECHS, u \in UCLASSES, p \in PCLASSES, w \in WRONGS, v \in TLSVERS, r \in RETRY, n \in 0..2}
+    salt |-> Pick(SALTS, n), iter |-> Pick(ITERS, n + 1), suffix |-> Pick(SUFFIXES, n + 2),
+    via |-> via, abort |-> IF r THEN ab ELSE ""] :
+     m \in MECHS, u \in UCLASSES, p \in PCLASSES, w \in WRONGS, v \in TLSVERS, r \in RETRY, n \in 0..2, via \in VIAS, ab \in ABORTS}
 
 VARIABLES sc, pc
 vars == <<sc, pc>>
